@@ -201,12 +201,27 @@ pub struct TraceCase {
     /// schedule: each entry selects (monotone map) which connection with packets left advances next
     pub schedule: Vec<u16>,
     pub link: Link,
+    /// Ethernet address pair of every frame (Ethernet link only): 0 = plain, 1 = addresses whose bytes read like an IPv4 header
+    /// carrying TCP, 2 = like an IPv6 header carrying TCP (a decoder that tried raw IP before Ethernet would be misled)
+    #[serde(default)]
+    pub macs: u8,
 }
 
 impl TraceCase {
     /// per-connection packet lists
     pub fn per_conn(&self) -> Vec<Vec<Packet>> {
-        self.conns.iter().enumerate().map(|(i, c)| c.packets(i, self.link, 1_000_000 + i as u64 * 37)).collect()
+        let mut lists: Vec<Vec<Packet>> = self.conns.iter().enumerate().map(|(i, c)| c.packets(i, self.link, 1_000_000 + i as u64 * 37)).collect();
+        if self.link == Link::Ether && self.macs % 3 != 0 {
+            let pair: [u8; 12] = if self.macs % 3 == 1 { [0x45, 0x00, 0x00, 0x28, 0x00, 0x00, 0x40, 0x00, 0x40, 0x06, 0x00, 0x00] } else { [0x60, 0x00, 0x00, 0x00, 0x00, 0x14, 0x06, 0x40, 0x20, 0x01, 0x0d, 0xb8] };
+            for l in lists.iter_mut() {
+                for p in l.iter_mut() {
+                    if p.frame.len() >= 14 {
+                        p.frame[..12].copy_from_slice(&pair);
+                    }
+                }
+            }
+        }
+        lists
     }
     /// the interleaved trace (order-preserving per connection)
     pub fn interleaved(&self) -> Vec<Packet> {
@@ -289,7 +304,7 @@ pub fn conn(allow_h2: bool) -> impl Strategy<Value = Conn> {
 
 /// 1..max connections with pairwise distinct (and non-reversed) 4-tuples and pairwise distinct TSvals
 pub fn trace_case(max_conns: usize, allow_h2: bool) -> impl Strategy<Value = TraceCase> {
-    (vec(conn(allow_h2), 1..=max_conns), vec(any::<u16>(), 0..60), prop_oneof![4 => Just(Link::Ether), 1 => Just(Link::Raw)]).prop_map(|(conns, schedule, link)| {
+    (vec(conn(allow_h2), 1..=max_conns), vec(any::<u16>(), 0..60), prop_oneof![4 => Just(Link::Ether), 1 => Just(Link::Raw)], prop_oneof![3 => Just(0u8), 1 => Just(1u8), 1 => Just(2u8)]).prop_map(|(conns, schedule, link, macs)| {
         let mut seen = std::collections::BTreeSet::new();
         let mut kept: Vec<Conn> = vec![];
         for (i, mut c) in conns.into_iter().enumerate() {
@@ -305,6 +320,6 @@ pub fn trace_case(max_conns: usize, allow_h2: bool) -> impl Strategy<Value = Tra
             // raw-IP frames must not look like Ethernet to the Ethernet-first decoder: the address pool guarantees it
             kept.push(c);
         }
-        TraceCase { conns: kept, schedule, link }
+        TraceCase { conns: kept, schedule, link, macs }
     })
 }
